@@ -178,6 +178,25 @@ Outcome runHistory(const Plan & p, Ctx & c)
       V3 lq {-0.37 * op.n + 11.0, 0.61 * op.e - 7.0, 0.5 * op.u};
       Eigen::Vector3d eq = conv->toECEF(ev(lq));
       L dLocal = norm(lq - lp), dEcef = (L)(eq - ecef).norm();
+      // the same distance from two results that are alive at the same time and were never copied
+      {
+        L dInline = (L)(conv->toECEF(ev(lq)) - conv->toECEF(ev(lp))).norm();
+        const auto & keep = conv->toECEF(ev(lp)); Eigen::Vector3d before = keep; (void)conv->toECEF(ev(lq)); (void)conv->toWGS84(ev(lq));
+        if (!(fabsl(dInline - dLocal) <= 1e-9L * (dLocal + 1)) || !(keep == before)) {
+          return Outcome::fail("distance-not-preserved", fmt("after op #%zu: |toECEF(q) - toECEF(p)| evaluated in one expression is %.12Lg m for a local distance of %.12Lg m "
+                   "(or a kept result changed under a later call): conversion results alias each other", no, dInline, dLocal));
+        }
+      }
+      // two points 2 mm apart converted one right after the other stay 2 mm apart (1 mm clause, consecutive calls)
+      {
+        Eigen::Vector3d a = ev(lp), b = ev(lp) + Eigen::Vector3d(0.002, 0, 0);
+        rc::GeodeticCoordinates ga = conv->toWGS84(a), gb = conv->toWGS84(b);
+        Eigen::Vector3d ra = conv->toENU(ga), rb = conv->toENU(gb);
+        if (!((ra - a).norm() <= (double)kMillimetre) || !((rb - b).norm() <= (double)kMillimetre)) {
+          return Outcome::fail("round-trip-enu-geodetic", fmt("after op #%zu: two local points 2 mm apart converted to geodetic one right after the other come back %.4g m and %.4g m from where they were",
+                   no, (ra - a).norm(), (rb - b).norm()));
+        }
+      }
       if (!(fabsl(dLocal - dEcef) <= 1e-9L * (dLocal + 1))) {return Outcome::fail("distance-not-preserved", fmt("after op #%zu: local distance %.12Lg m, ECEF distance %.12Lg m", no, dLocal, dEcef));}
       if (reanchored && everReset) {SIM_PROBE("frame_checked_after_reset_and_reanchor");}
       if (fabsl(fabsl(remainderl(anchor.lon, 6.283185307179586477L)) - 3.141592653589793238L) < 0.1L) {SIM_PROBE("anchor_within_0.1rad_of_antimeridian");}
